@@ -39,6 +39,7 @@ type simPolicy struct {
 	defaultSalt bool          // the client's key uses the default salt and parameters: no hints needed
 	grace       time.Duration // a ticket is still honoured this long after its end time (the clock skew a KDC allows)
 	backdate    time.Duration // AS: the authentication time lies this far in the past (a TGT that is nearly used up when it is issued)
+	fast        bool          // the client keeps the library's default: FAST negotiation (PA-REQ-ENC-PA-REP) is on
 }
 
 type simReq struct {
@@ -70,6 +71,8 @@ type kdcSim struct {
 	clientPw string
 	cliEt    int32
 	down     int32 // != 0: the KDCs accept connections and close them without an answer (an outage)
+	slowNs   int64 // > 0: every answer is delayed by this long (real time; not used under a fake clock)
+	arrived  int64 // requests that have reached the simulator (counted before any delay)
 }
 
 var simRealms = []string{"TEST.GOKRB5", "OTHER.REALM", "THIRD.REALM"}
@@ -192,6 +195,10 @@ func (s *kdcSim) handle(realm string, req []byte) []byte {
 	if atomic.LoadInt32(&s.down) != 0 {
 		return nil
 	}
+	atomic.AddInt64(&s.arrived, 1)
+	if d := atomic.LoadInt64(&s.slowNs); d > 0 {
+		time.Sleep(time.Duration(d))
+	}
 	s.mu.Lock()
 	defer s.mu.Unlock()
 	var a messages.ASReq
@@ -229,11 +236,15 @@ func (s *kdcSim) handleAS(realm string, a messages.ASReq, raw []byte) []byte {
 			return s.krbError(r, realm, a.ReqBody.SName, 25, ed)
 		}
 		// PA-ENC-TIMESTAMP must decrypt under the client's key (usage 1) and be recent
+		// (a KDC looks at the first element of that type; one that is left over from an earlier attempt, computed
+		// with another key, makes the request one it has to refuse or at best one that is not well-formed)
 		ok := false
+		nTS, nGood := 0, 0
 		for _, pa := range a.PAData {
 			if pa.PADataType != 2 {
 				continue
 			}
+			nTS++
 			var ed types.EncryptedData
 			if ed.Unmarshal(pa.PADataValue) != nil {
 				continue
@@ -248,8 +259,14 @@ func (s *kdcSim) handleAS(realm string, a messages.ASReq, raw []byte) []byte {
 			}
 			d := ts.PATimestamp.Sub(now)
 			if d < 5*time.Minute && d > -5*time.Minute {
-				ok = true
+				nGood++
+				if nTS == 1 {
+					ok = true
+				}
 			}
+		}
+		if nTS > 1 {
+			r.issues = append(r.issues, fmt.Sprintf("the AS-REQ carries %d PA-ENC-TIMESTAMP elements, %d of them computed with the client's key (an element of an earlier attempt was left in the request)", nTS, nGood))
 		}
 		if !ok {
 			ed, _ := asn1.Marshal(s.errHints(hints))
